@@ -32,6 +32,9 @@ structure SpecSt where
   hist : Assoc (Assoc (List Bytes)) := []
   /-- committed state at each `backup <n>` -/
   backups : List (Nat × SpecDB) := []
+  /-- a finding that explains divergences at the crash points of the last Merge only (never its completed
+  result): set by `merge`, cleared by `capture` -/
+  mergeCrashTaint : Option String := none
   deriving Inhabited
 
 /-- abstraction of a model state: what the indexes say, structure by structure -/
@@ -115,18 +118,34 @@ structure SpecOut where
 from; `none` = none of them: the call is inside the guard of the C15/C16 theorems and must leave every
 observation unchanged, at every crash point too.
   * D-MERGE-LIST: a list record is in some data file (pushes are re-applied, pops/LSet/LTrim/LRem dropped);
-  * D-MERGE-FID0: key-only index mode (hints created by the rewrite carry file id 0);
   * D-MERGE-UNCOMMITTED: a record of a transaction that never committed is in some data file;
   * D-MERGE-XSTRUCT: a set / sorted-set record whose bucket and key are also in the KV index;
-  * D-MERGE-ACTIVE: nothing is live in any file (the active file is removed while still open). -/
+  * D-MERGE-ACTIVE: nothing is live in any file (the active file is removed while still open).
+At crash points inside Merge only (`mergeCrashSignature`):
+  * D-MERGE-ZSET-STALE: two ZAdd records of the same bucket and member are in the data files (the older one
+    is rewritten into a newer file: at a crash before the newer one is rewritten too, replay applies it last). -/
+def zaddMember (r : Rec) : Option (Bytes × Bytes) :=
+  if r.ds == dsZSet && r.flag == flagZAdd then
+    match splitSep r.key with
+    | [k, _] => some (r.bucket, k)
+    | _ => none
+  else none
+
+def hasDupZAdd (recs : List (Rec × Nat × Nat)) : Bool :=
+  let ms := recs.filterMap fun x => zaddMember x.1
+  ms.length != ms.eraseDups.length
+
 def mergeSignature (s : State) (now : Nat) : Option String :=
   let recs := allRecs s.files
   if recs.any (fun x => x.1.ds == dsList) then some "D-MERGE-LIST"
-  else if s.opt.mode != 0 then some "D-MERGE-FID0"
   else if recs.any (fun x => !s.committed.contains x.1.txid) then some "D-MERGE-UNCOMMITTED"
   else if recs.any (fun x => x.1.ds != dsKV && ((aget? s.kv x.1.bucket).bind (aget? · x.1.key)).isSome) then some "D-MERGE-XSTRUCT"
   else if (merge s now []).1.activeUnlinked then some "D-MERGE-ACTIVE"
   else none
+
+/-- the defect that shows at crash points inside Merge only -/
+def mergeCrashSignature (s : State) : Option String :=
+  if hasDupZAdd (allRecs s.files) then some "D-MERGE-ZSET-STALE" else none
 
 def step (sp : SpecSt) (model : State) (cmd : String) (impl : String) : SpecOut :=
   let f := words cmd
@@ -181,7 +200,7 @@ def step (sp : SpecSt) (model : State) (cmd : String) (impl : String) : SpecOut 
   | "rollback" =>
     if !sp.txOpen || sp.txClosed then { st := sp, expect := some (ex "err") }
     else { st := { sp with txClosed := true, writeSet := [] }, expect := some (ex "ok") }
-  | "capture" => { st := sp, expect := none }
+  | "capture" => { st := { sp with mergeCrashTaint := none }, expect := none }
   | "fault" => { st := sp, expect := none }
   | "concmerge" => { st := { sp with concMerge := true }, expect := none }
   | "backup" => { st := { sp with backups := (N 1, sp.committed) :: sp.backups }, expect := some (ex (if sp.opened then "ok" else "err")) }
@@ -207,11 +226,12 @@ def step (sp : SpecSt) (model : State) (cmd : String) (impl : String) : SpecOut 
     let want := "ok " ++ head ++ " open=ok obs=" ++ obs wantSt (N 2)
     let implNorm := "ok " ++ head ++ " open=" ++ field "open" ++ " obs=" ++ (dropEmpties ("ok " ++ (match payload.splitOn " obs=" with | [_, o] => o | _ => ""))).drop 3
     { st := sp, expect := some (ex want (alts := if implNorm == want then [impl] else [])),
-      taint := if field "event" == "write-torn" then some "D-TORN-CRC" else none, sticky := false }
+      taint := if field "event" == "write-torn" then some "D-TORN-CRC" else sp.mergeCrashTaint, sticky := false }
   | "merge" =>
     -- `Merge` may refuse (fewer than two data files): an error that changes nothing is acceptable
     let tail := (impl.drop ((words impl).headD "").length).toString
-    { st := { sp with prev := sp.committed, lastTx := 0 }, expect := some (ex ("ok" ++ tail) (alts := ["err" ++ tail])),
+    { st := { sp with prev := sp.committed, lastTx := 0, mergeCrashTaint := mergeCrashSignature model },
+      expect := some (ex ("ok" ++ tail) (alts := ["err" ++ tail])),
       taint := mergeSignature model (N 1) }
   | "obs" =>
     let want := "ok " ++ obs sp.committed (N 1)
